@@ -392,6 +392,12 @@ func (c c37Case) judge(out *lib.Outcome, hook *recHook, id string, call lib.Call
 		// server answers before starting the hook owes nothing
 		return
 	}
+	// coverage guard: the clauses below only bite when a start was observed
+	kind := call.Kind
+	if kind == "stream" {
+		kind = "stream"
+	}
+	out.Label("start-seen:" + c.Transport + ":" + kind)
 	if len(ends) != 1 {
 		out.Violate(lib.Keyf("C37", "end-count", c.Transport, site), "%s (%s): start returned but %d ends ran", id, site, len(ends))
 		return
@@ -422,7 +428,8 @@ var propC37 = lib.Prop[c37Case]{
 		"Oracle: responses identical to the same history without a hook; per dispatch at most one start; a start that returned has exactly one end with its token; for dispatched calls end's err != nil iff the response carries an exception / error status. Non-trivial: >=3 calls with a failing call or a panicking hook.",
 	Gen:          genC37,
 	Run:          runC37,
-	Essential:    []string{"transport:pipe", "transport:http", "hook-panic:start", "hook-panic:end", "failing-call"},
+	Essential:    []string{"transport:pipe", "transport:http", "hook-panic:start", "hook-panic:end", "failing-call",
+		"start-seen:pipe:unary", "start-seen:pipe:stream", "start-seen:http:unary", "start-seen:http:stream"},
 	EssentialMin: 200,
 }
 
